@@ -137,9 +137,9 @@ inline void spawn(F&& f) {
 template <class T>
 struct Tracked {
   T v;
-  Tracked() : v() { mc_track_ctor(this, 0); }
-  Tracked(const T& x) : v(x) { mc_track_ctor(this, (long)x); }
-  Tracked(const Tracked& o) : v(o.v) {
+  Tracked() noexcept : v() { mc_track_ctor(this, 0); }
+  Tracked(const T& x) noexcept : v(x) { mc_track_ctor(this, (long)x); }
+  Tracked(const Tracked& o) noexcept : v(o.v) {
     mc_track_use(&o);
     mc_track_ctor(this, (long)v);
   }
@@ -147,7 +147,7 @@ struct Tracked {
     mc_track_use(&o);
     mc_track_ctor(this, (long)v);
   }
-  Tracked& operator=(const Tracked& o) {
+  Tracked& operator=(const Tracked& o) noexcept {
     mc_track_use(&o);
     mc_track_use(this);
     v = o.v;
